@@ -5,6 +5,7 @@ import (
 	"io"
 	"net/http"
 	"strconv"
+	"strings"
 )
 
 // transport serves the spec's virtual web through the seam the program already
@@ -19,6 +20,28 @@ func (transport) RoundTrip(req *http.Request) (*http.Response, error) {
 	if flt != nil && (flt.Kind == "neterr" || faultErrno(flt) != 0) {
 		w.done(seq, "http", url, 0, errNet, flt, fi, true)
 		return nil, errNet
+	}
+	if flt != nil && strings.HasPrefix(flt.Kind, "status:") {
+		// the server answers, but not with the document: an error status with a small JSON body, as APIs and
+		// gateways send them
+		code := strings.TrimPrefix(flt.Kind, "status:")
+		schemaLike := strings.HasSuffix(code, "s")
+		st, _ := strconv.Atoi(strings.TrimSuffix(code, "s"))
+		b := []byte(`{"message": "` + http.StatusText(st) + `", "code": ` + strconv.Itoa(st) + `}`)
+		if schemaLike {
+			// ... or with a body that happens to be a schema (an API that answers every path with a description of
+			// its error format): still not the document that was asked for
+			b = []byte(`{"title": "Error", "type": "object", "properties": {"message": {"type": "string"}, "code": {"type": "integer"}}, "$defs": {}}`)
+		}
+		h := http.Header{}
+		h.Set("Content-Type", "application/json")
+		h.Set("Content-Length", strconv.Itoa(len(b)))
+		w.done(seq, "http", url, 0, nil, flt, fi, true)
+		return &http.Response{
+			Status: strconv.Itoa(st) + " " + http.StatusText(st), StatusCode: st,
+			Proto: "HTTP/1.1", ProtoMajor: 1, ProtoMinor: 1,
+			Header: h, Body: &body{url: url, data: b}, ContentLength: int64(len(b)), Request: req,
+		}, nil
 	}
 	for i := range w.spec.Web {
 		e := &w.spec.Web[i]
